@@ -889,7 +889,7 @@ func genWide(r *rand.Rand) ([]Tup, Sub) {
 			kids = append(kids, k)
 			ts = append(ts, edge(root, k.sub()))
 		} else {
-			ts = append(ts, edge(root, Sub{ID: r.Intn(300)}))
+			ts = append(ts, edge(root, Sub{ID: r.Intn(10)}))
 		}
 	}
 	for _, k := range kids {
